@@ -55,6 +55,7 @@ FIXED = [
  ("C02", "C02-text-after-closed-tree", "the Newick parser accepted text after an unmatched closing parenthesis", "\"(a))(b;\" was read without error as the tree \"b;\" (also inside a Nexus TREE command) with node ids continuing those of the abandoned first tree; NodeRootDistance() and LTT() on the delivered tree panicked with index out of range"),
  ("C02", "C02-reopened-after-comma", "the Newick parser still started a second tree at level 0", "\"(a,b),(c,d);\", \"()(a,b);\" and \"(a,)(b,c);\" were read without error as the last group only, with node ids continuing those of the abandoned first tree; NodeRootDistance() and LTT() on the delivered tree panicked (second path of C02-text-after-closed-tree: the root popped by a comma or by closing an empty group)"),
  ("C11", "C11-tbe-per-branch-only-panic", "TBE panicked when per-branch transfer tables were requested", "support.TBE with computeperbranchtaxa=true and computeavgtaxa=false (--per-branches without --moved-taxa) panicked with index out of range, with one thread and with several: the per-taxon accumulator was updated although it is only allocated for the per-taxon table (30-tip reference, 4 bootstrap copies)"),
+ ("C03", "C03-nni-apply-after-reroot", "NNI Apply left the central branch wrongly oriented", "a rearrangement handle applied after Reroot into the n2-side clade it exchanges returned nil and left an ill-oriented tree: (a,b,((c,d)Z,(e,f)W)Y)R; proposal 0, Reroot(W), Apply: Edges() listed 4 branches for 10 nodes (counterpart of C03-nni-undo-after-reroot; the central branch was only inverted when the root lay behind n1_2)"),
  ("C09", "C09-nan-threshold-accepted", "Consensus accepted a NaN threshold", "tree.Consensus(trees, NaN) was not refused (the range test is false for NaN): with compatible trees it kept every split regardless of frequency, with ((A,B),C,D);((A,C),B,D); it failed later with 'the group should be monophyletic' instead of the threshold error"),
  ("C13", "C13-nexus-several-trees-blocks", "the Nexus reader kept only the trees of the last TREES block", "a Nexus file with two TREES blocks: \"#NEXUS BEGIN TREES;TREE t1=(a,b);END;BEGIN TREES;TREE t2=(c,d);END;\" delivered only t2 (id 0) through the parser, ReadMultiTrees and ReadTreeReader, t1 was dropped without an error; a tree followed by an empty TREES block delivered nothing"),
  ("C13", "C13-phyloxml-firsttree-nil", "PhyloXML FirstTree assigned a shadowed", "PhyloXML FirstTree returned (nil, nil): reading 'the first tree' of a PhyloXML file failed with 'No tree in the input PhyloXML file' although the iterator delivers it"),
